@@ -49,7 +49,7 @@ class Group:
 
 
 class World:
-    def __init__(self, chooser, allow_death=False, max_deaths=1, max_calls=600, death_codes=(-9,)):
+    def __init__(self, chooser, allow_death=False, max_deaths=1, max_calls=600, death_codes=(-9,), allow_exc=False):
         self.ch = chooser
         self.groups = []
         self.allow_death = allow_death
@@ -58,6 +58,7 @@ class World:
         self.calls = 0
         self.max_calls = max_calls
         self.death_codes = death_codes
+        self.allow_exc = allow_exc
 
     # -- group handling: a new group starts with the first Process created after the previous group was joined
     def cur(self):
@@ -99,8 +100,13 @@ class World:
             g.chan.append(p.buf.pop(0))
             g.events.append({"e": "wFlush", "i": i})
         elif kind == "wExit":
-            p.exitcode = 0
-            g.events.append({"e": "wExit", "i": i})
+            if getattr(p, "crashed", False):
+                # the process ends through the uncaught exception: exit status 1, whatever it had not put is lost
+                p.exitcode = 1
+                g.events.append({"e": "wDie", "i": i, "code": 1})
+            else:
+                p.exitcode = 0
+                g.events.append({"e": "wExit", "i": i})
         else:
             code = self.death_codes[self.ch.choose(len(self.death_codes))] if len(self.death_codes) > 1 else self.death_codes[0]
             p.lost = p.buf + p.todo
@@ -148,11 +154,19 @@ class FakeQueue:
         raise queue.Empty
 
 
+class InjectedCrash(Exception):
+    """an uncaught exception inside the worker function (MemoryError in the aligner, a bad record, ...)"""
+
+
 class RecQ:
-    def __init__(self):
+    def __init__(self, crash_at=None):
         self.items = []
+        self.crash_at = crash_at
 
     def put(self, x):
+        if self.crash_at is not None and x is not None and len(self.items) == self.crash_at:
+            self.crash_at = None
+            raise InjectedCrash()
         self.items.append(x)
 
 
@@ -165,10 +179,23 @@ class FakeProcess:
         W.new_proc(self)
 
     def start(self):
-        q = RecQ()
-        self.target(self.args[0], q)     # the real wfa_alignment on this worker's batch
+        # optionally the worker function itself raises at record k (decided by the scheduler; counts as the run's death)
+        self.batch_prios = [t[3] for t in self.args[0]]
+        crash_at = None
+        if W.allow_exc and W.deaths < W.max_deaths and self.batch_prios:
+            c = W.ch.choose(len(self.batch_prios) + 1)
+            if c > 0:
+                crash_at = c - 1
+                W.deaths += 1
+        q = RecQ(crash_at)
+        self.crashed = False
+        try:
+            self.target(self.args[0], q)     # the real wfa_alignment on this worker's batch
+        except InjectedCrash:
+            self.crashed = True
         self.todo = q.items
         self.total = list(q.items)
+        self.missing = len(self.batch_prios) - len([m for m in q.items if m is not None])
         self.started = True
 
     def _check(self):
